@@ -743,4 +743,68 @@ def nearestF64 (q : Rat) : F64 :=
 
 def ieee : FloatSem := ⟨nearestF64⟩
 
+/-! ### Numerals with very large exponents (added after the review of the sub-check theorems)
+
+`parseNumber` denotes the exact value `m · 10^E` of a numeral. That is the right *meaning*, but a
+program cannot evaluate it for `"0e99999999999"` (`10^huge`). The definitions below read the same
+grammar without computing the power (`parseNumberParts`: mantissa digits and decimal exponent) and
+evaluate `f64::from_str` through them (`parseF64Fast`): a zero mantissa is `0` whatever the
+exponent; a non-zero mantissa with `E ≥ 400` is `±inf` and with `E + #digits ≤ -400` is `0`
+(`10^400 > 2^1024`, `10^-400 < 2^-1075`: what every correctly rounded binary64 conversion gives,
+and what `core::num::dec2flt` returns); everything else is the exact value handed to the rounding,
+as in `parseF64Str`. `Lemmas/ExchangeStream.lean` proves `parseNumber = value ∘ parseNumberParts`
+and `parseF64Fast = parseF64Str` outside the two clamped branches (for every `FloatSem`); inside
+them the equality is a property of the rounding (`ieee` overflows / underflows there — witnesses
+at the thresholds in `Props/C12W.lean`). Nothing above this line was changed. -/
+
+/-- `'.' Digit*` after the integer part: (fraction digits, rest, had a dot). -/
+def fracSplit (r1 : List Char) : List Char × List Char × Bool :=
+  match r1 with
+  | '.' :: r => ((r.span isDigit).1, (r.span isDigit).2, true)
+  | _ => ([], r1, false)
+
+/-- The grammar of `parseNumber`, returning the mantissa digits `ip ++ fp` and the decimal
+exponent `E = e - |fp|` instead of the value `natOfDigits (ip ++ fp) · 10^E`. -/
+def parseNumberParts (cs : List Char) : Option (List Char × Int) :=
+  let ip := (cs.span isDigit).1
+  let t := fracSplit (cs.span isDigit).2
+  if ip.isEmpty && t.1.isEmpty then none else
+  match parseExp t.2.1 with
+  | none => none
+  | some e => some (ip ++ t.1, e - t.1.length)
+
+/-- `parseF64Str` evaluated without computing `10^E` for huge `|E|` (see the section comment). -/
+def parseF64Fast (sem : FloatSem) (cs : List Char) : Except String F64 :=
+  if cs.isEmpty then .error eFloatEmpty else
+  let (neg, body) := splitSign cs
+  match parseNumberParts body with
+  | some (ds, e) =>
+    if natOfDigits ds = 0 then .ok (sem.round 0)
+    else if 400 ≤ e then .ok (.inf neg)
+    else if e + (ds.length : Int) ≤ -400 then .ok (.finite 0)
+    else .ok (sem.round (if neg then -((natOfDigits ds : Rat) * pow10Rat e)
+                         else (natOfDigits ds : Rat) * pow10Rat e))
+  | none =>
+    if isWord body "inf" || isWord body "infinity" then .ok (.inf neg)
+    else if isWord body "nan" then .ok .nan
+    else .error eFloatInvalid
+
+/-- `deStrF64EpochMs` with the string → `f64` step as a parameter
+(`deStrF64EpochMs sem = deStrF64EpochMsWith (parseF64Str sem)` by `rfl`). -/
+def deStrF64EpochMsWith (p : List Char → Except String F64) (j : Json) : Outcome Nat :=
+  match deStr p j with
+  | .ok x => ofDateTime (datetimeUtcFromEpochDuration (Duration.fromMillis (f64AsU64 x)))
+  | .err e => .err e
+  | .panic => .panic
+
+/-- `deStrF64EpochS` with the string → `f64` step as a parameter. -/
+def deStrF64EpochSWith (p : List Char → Except String F64) (j : Json) : Outcome Nat :=
+  match deStr p j with
+  | .ok x =>
+    match durationFromSecsF64 x with
+    | some d => ofDateTime (datetimeUtcFromEpochDuration d)
+    | none => .panic
+  | .err e => .err e
+  | .panic => .panic
+
 end BarterModel.ExStream
